@@ -11,10 +11,11 @@ theorem C10_next_page_ignores_buffering (ph : Phys) (off f1 f2 boundary : Int) (
     (nextPage ph { off := off, fill := f1 } boundary).2.2.off = (nextPage ph { off := off, fill := f2 } boundary).2.2.off := by
   unfold nextPage
   simp only [hb, false_and, if_false]
-  generalize ph.pages.find? (fun p => decide (p.off ≥ off)) = r
+  generalize ph.pages.find? (fun p => decide (p.off ≥ off ∧ p.off < stallAt ph off)) = r
+  generalize stallAt ph off = st
   cases r with
   | none =>
-      by_cases h : boundary > 0 ∧ off + boundary ≤ ph.size <;> simp [h]
+      by_cases h : boundary > 0 ∧ off + boundary ≤ st <;> simp [h]
   | some p =>
       by_cases h : boundary > 0 ∧ p.off ≥ off + boundary <;> simp [h]
 
